@@ -7,6 +7,7 @@
 #include <pthread.h>
 #include <sys/syscall.h>
 #include <unistd.h>
+#include <algorithm>
 #include <atomic>
 #include <chrono>
 #include <climits>
@@ -49,7 +50,9 @@ struct Task
   int64_t prio = 0;
   bool harness = false;
   bool in_op   = false;
-  uint64_t stall_until = 0;  // W_STALL: released when S.points reaches this
+  uint64_t stall_until = 0;
+  uint64_t npoints     = 0;
+  uint64_t ntimer      = 0;  // W_STALL: released when S.points reaches this
 };
 
 struct Sim
@@ -185,6 +188,8 @@ void recompute_min_deadline()
 
 void make_runnable(Task *t, bool timed_out)
 {
+  if (timed_out)
+    t->ntimer++;
   t->st        = RUNNABLE;
   t->timed_out = timed_out;
   t->wkind     = W_NONE;
@@ -565,6 +570,14 @@ uint64_t switches_in_op() noexcept
 {
   return S.sw_in_op;
 }
+uint64_t self_points() noexcept
+{
+  return tl ? tl->npoints : 0;
+}
+uint64_t self_timer_wakes() noexcept
+{
+  return tl ? tl->ntimer : 0;
+}
 
 static void point_impl(Kind k, uint32_t obj, bool yielding) noexcept
 {
@@ -573,6 +586,7 @@ static void point_impl(Kind k, uint32_t obj, bool yielding) noexcept
     return;
   S.points++;
   S.consec++;
+  me->npoints++;
   S.now += S.cfg.cost_ns;
   hash_ev(me->id, k, obj);
   if (g_shared)
